@@ -310,8 +310,18 @@ def _ref_src(base, spec, r, var):
     return f'dawgie.V_REF({fac}, {var}, {item}, {vn!r})'
 
 
-def sources(spec, base):
-    '''{relative path: source text} for the whole engine package'''
+def sources(spec, base, viol=None):
+    '''{relative path: source text} for the whole engine package.
+
+    ``viol`` (C16) injects one violation of an architecture rule, see
+    ``violations``.'''
+    v = viol or {}
+
+    def hit(kind, **where):
+        return v.get('kind') == kind and all(
+            v.get(k) == val for k, val in where.items()
+        )
+
     files = {f'{base}/__init__.py': "'''synthetic algorithm engine'''\n"}
     algs = spec['algs']
     for pi, pk in enumerate(spec['pkgs']):
@@ -332,65 +342,93 @@ def sources(spec, base):
         ]
         for i, a in mine:
             for j, sv in enumerate(a['svs']):
-                for k, v in enumerate(sv['vals']):
+                for k, val0 in enumerate(sv['vals']):
+                    vbase = ('dawgie.Version'
+                             if hit('value-base', alg=i, sv=j, val=k)
+                             else 'dawgie.Value')
                     bot += [
                         '',
-                        f'class V_{i}_{j}_{k}(dawgie.Value):',
+                        f'class V_{i}_{j}_{k}({vbase}):',
                         '    def __init__(self, content=None):',
                         '        dawgie.Value.__init__(self)',
                         '        self.content = content',
-                        '        self._version_ = dawgie.VERSION({}, {}, {})'.format(*v['ver']),
+                    ]
+                    if hit('unpicklable', alg=i, sv=j, val=k):
+                        bot.append('        self.fn = lambda: 0')
+                    bot += [
+                        '        self._version_ = dawgie.VERSION({}, {}, {})'.format(*val0['ver']),
                         '',
                         '    def features(self):',
                         '        return []',
                         '',
                     ]
+                svbad = hit('sv-base', alg=i, sv=j)
                 bot += [
                     '',
-                    f'class SV_{i}_{j}(dawgie.StateVector):',
+                    f'class SV_{i}_{j}({"dict" if svbad else "dawgie.StateVector"}):',
                     '    def __init__(self):',
-                    '        dawgie.StateVector.__init__(self)',
+                    ('        dict.__init__(self)' if svbad else
+                     '        dawgie.StateVector.__init__(self)'),
                     '        self._version_ = dawgie.VERSION({}, {}, {})'.format(*sv['ver']),
                 ]
-                for k, v in enumerate(sv['vals']):
-                    bot.append(f'        self[{v["name"]!r}] = V_{i}_{j}_{k}()')
+                for k, val in enumerate(sv['vals']):
+                    if hit('empty-sv', alg=i, sv=j):
+                        continue
+                    key = val['name'] + ('.x' if hit('dotted-val', alg=i,
+                                                    sv=j, val=k) else '')
+                    bot.append(f'        self[{key!r}] = V_{i}_{j}_{k}()')
+                svname = sv['name'] + ('.x' if hit('dotted-sv', alg=i, sv=j)
+                                       else '')
                 bot += [
                     '',
                     '    def name(self):',
-                    f'        return {sv["name"]!r}',
+                    f'        return {svname!r}',
                     '',
                     '    def view(self, caller, visitor):',
                     '        return',
                     '',
                 ]
             kind = a['kind']
+            abase = ('Version' if hit('alg-base', alg=i)
+                     else _BASE_CLASS[kind])
             bot += [
                 '',
-                f'class Alg_{i}(dawgie.{_BASE_CLASS[kind]}):',
+                f'class Alg_{i}(dawgie.{abase}):',
             ]
-            if spec['style'] == 'registry' and a['events']:
-                evs = ', '.join(
-                    f'dawgie.schedule(None, None, {_moment_src(m)})'
-                    for m in a['events']
-                )
+            badmom = v.get('kind', '').startswith('moment-') and v.get('alg') == i
+            if spec['style'] == 'registry' and (a['events'] or badmom):
+                evl = [f'dawgie.schedule(None, None, {_moment_src(m)})'
+                       for m in a['events']]
+                if badmom:
+                    evl.append('dawgie.EVENT(dawgie.ALG_REF(None, None), '
+                               + _BAD_MOMENT[v['kind']] + ')')
+                evs = ', '.join(evl)
                 bot.append(f'    DAWGIE_SCHEDULE = [{evs}]')
                 bot.append('')
+            aname = a['name'] + ('.x' if hit('dotted-alg', alg=i) else '')
             bot += [
                 '    def __init__(self):',
                 '        self._version_ = dawgie.VERSION({}, {}, {})'.format(*a['ver']),
                 '        self._svs = [{}]'.format(
+                    '' if hit('no-svs', alg=i) else
                     ', '.join(f'SV_{i}_{j}()' for j in range(len(a['svs'])))
                 ),
                 '        self._deps = None',
                 '        self._fbs = None',
                 '',
-                '    def name(self):',
-                f'        return {a["name"]!r}',
-                '',
-                '    def state_vectors(self):',
-                '        return self._svs',
-                '',
             ]
+            if not hit('no-name', alg=i):
+                bot += [
+                    '    def name(self):',
+                    f'        return {aname!r}',
+                    '',
+                ]
+            if not hit('no-svs-method', alg=i):
+                bot += [
+                    '    def state_vectors(self):',
+                    '        return self._svs',
+                    '',
+                ]
             for meth, refs, cache in (
                 (_DEP_METHOD[kind], a['inputs'], '_deps'),
                 ('feedback', a['feedback'], '_fbs'),
@@ -403,15 +441,33 @@ def sources(spec, base):
                 for ip in imports:
                     bot.append(f'            import {base}.{ip}.bot')
                 bot.append(f'            self.{cache} = []')
+                badref = (v.get('kind', '').startswith('ref-')
+                          and v.get('alg') == i and v.get('which') == cache
+                          and refs)
+                bn = v.get('ref', 0) % len(refs) if badref else -1
                 for n, r in enumerate(refs):
                     tp = spec['pkgs'][algs[r['to']]['pkg']]
                     bot.append(
                         f'            i{n} = {base}.{tp}.bot.Alg_{r["to"]}()'
                     )
-                    bot.append(
-                        f'            self.{cache}.append('
-                        f'{_ref_src(base, spec, r, f"i{n}")})'
-                    )
+                    good = (f'            self.{cache}.append('
+                            f'{_ref_src(base, spec, r, f"i{n}")})')
+                    if n == bn:
+                        ta = algs[r['to']]
+                        fac = f'{base}.{tp}.{ta["kind"]}'
+                        bad = (f'            self.{cache}.append('
+                               + _BAD_REF[v['kind']].format(
+                                   fac=fac, impl=f'i{n}',
+                                   item=f'i{n}.state_vectors()[0]') + ')')
+                        pos = v.get('pos', 'after')
+                        if pos == 'before':
+                            bot += [bad, good]
+                        elif pos == 'replace':
+                            bot.append(bad)
+                        else:
+                            bot += [good, bad]
+                    else:
+                        bot.append(good)
                 bot.append(f'        return self.{cache}')
                 bot.append('')
             if kind == 'task':
@@ -433,10 +489,25 @@ def sources(spec, base):
         if spec['style'] == 'legacy':
             for kind in kinds_here:
                 cls = f'Bot_{kind}'
+                if hit('bot-base', pkg=pi, fkind=kind):
+                    bot += [
+                        '',
+                        f'class {cls}:',
+                        '    def __init__(self, *args):',
+                        '        pass',
+                        '',
+                        '    def routines(self):',
+                        '        return self.list()',
+                        '',
+                        '    def list(self):',
+                    ]
+                else:
+                    bot += [
+                        '',
+                        f'class {cls}(dawgie.{_BOT_CLASS[kind]}):',
+                        '    def list(self):',
+                    ]
                 bot += [
-                    '',
-                    f'class {cls}(dawgie.{_BOT_CLASS[kind]}):',
-                    '    def list(self):',
                     '        return [{}]'.format(
                         ', '.join(
                             f'Alg_{i}()' for i, a in mine if a['kind'] == kind
@@ -444,22 +515,38 @@ def sources(spec, base):
                     ),
                     '',
                 ]
+                sig = _SIG[kind]
+                if hit('factory-arity', pkg=pi, fkind=kind):
+                    sig = sig + ', extra: int = 0'
+                elif hit('factory-default', pkg=pi, fkind=kind):
+                    sig = sig.replace('ps_hint: int = 0', 'ps_hint: int = 1')
+                elif hit('factory-annotation', pkg=pi, fkind=kind):
+                    sig = sig.replace('prefix: str', 'prefix')
                 init += [
                     '',
-                    f'def {kind}({_SIG[kind]}):',
+                    f'def {kind}({sig}):',
                     f'    import {base}.{pk}.bot',
                     '',
                     f'    return {base}.{pk}.bot.{cls}({_ARGS[kind]})',
                     '',
                 ]
             evs = [(i, a, m) for i, a in mine for m in a['events']]
-            if evs:
+            bad = [(i, a) for i, a in mine
+                   if v.get('kind', '').startswith('moment-')
+                   and v.get('alg') == i]
+            if evs or bad:
                 init += ['', 'def events():', f'    import {base}.{pk}.bot', '']
                 init.append('    return [')
                 for i, a, m in evs:
                     init.append(
                         f'        dawgie.schedule({a["kind"]}, '
                         f'{base}.{pk}.bot.Alg_{i}(), {_moment_src(m)}),'
+                    )
+                for i, a in bad:
+                    init.append(
+                        f'        dawgie.EVENT(dawgie.ALG_REF({a["kind"]}, '
+                        f'{base}.{pk}.bot.Alg_{i}()), '
+                        + _BAD_MOMENT[v['kind']] + '),'
                     )
                 init.append('    ]')
                 init.append('')
@@ -472,9 +559,109 @@ def sources(spec, base):
                     "    raise NotImplementedError('placeholder')",
                     '',
                 ]
+        bot += _BOGUS
         files[f'{base}/{pk}/__init__.py'] = '\n'.join(init) + '\n'
         files[f'{base}/{pk}/bot.py'] = '\n'.join(bot) + '\n'
     return files
+
+
+_BAD_MOMENT = {
+    'moment-two': 'dawgie.MOMENT(None, None, 3, 2, datetime.time(1, 2, 3))',
+    'moment-none': 'dawgie.MOMENT(None, None, None, None, '
+                   'datetime.time(1, 2, 3))',
+    'moment-no-time': 'dawgie.MOMENT(None, None, 3, None, None)',
+    'moment-dom-type': "dawgie.MOMENT(None, None, '3', None, "
+                       'datetime.time(1, 2, 3))',
+}
+_BAD_REF = {
+    'ref-feat-type': 'dawgie.V_REF({fac}, {impl}, {item}, 5)',
+    'ref-item-type': "dawgie.SV_REF({fac}, {impl}, 'not a state vector')",
+    'ref-impl-type': "dawgie.SV_REF({fac}, 'not an algorithm', {item})",
+    'ref-factory-type': "dawgie.SV_REF('not a factory', {impl}, {item})",
+    'ref-missing-value': "dawgie.V_REF({fac}, {impl}, {item}, 'no_such_value')",
+    'ref-missing-sv': 'dawgie.SV_REF({fac}, {impl}, SV_bogus())',
+    'ref-missing-alg': 'dawgie.SV_REF({fac}, Alg_bogus(), SV_bogus())',
+}
+_BOGUS = [
+    '',
+    'class V_bogus(dawgie.Value):',
+    '    def __init__(self):',
+    '        dawgie.Value.__init__(self)',
+    '        self._version_ = dawgie.VERSION(1, 0, 0)',
+    '',
+    '    def features(self):',
+    '        return []',
+    '',
+    '',
+    'class SV_bogus(dawgie.StateVector):',
+    '    def __init__(self):',
+    '        dawgie.StateVector.__init__(self)',
+    '        self._version_ = dawgie.VERSION(1, 0, 0)',
+    "        self['q'] = V_bogus()",
+    '',
+    '    def name(self):',
+    "        return 'zz'",
+    '',
+    '    def view(self, caller, visitor):',
+    '        return',
+    '',
+    '',
+    'class Alg_bogus(dawgie.Algorithm):',
+    '    DAWGIE_IGNORE = True',
+    '',
+    '    def __init__(self):',
+    '        self._version_ = dawgie.VERSION(1, 0, 0)',
+    '',
+    '    def name(self):',
+    "        return 'zz9'",
+    '',
+    '    def previous(self):',
+    '        return []',
+    '',
+    '    def feedback(self):',
+    '        return []',
+    '',
+    '    def state_vectors(self):',
+    '        return [SV_bogus()]',
+    '',
+    '    def run(self, ds, ps):',
+    '        return',
+    '',
+]
+
+
+def violations(spec):
+    '''every single-rule violation applicable to the spec, at every
+    position (C16); each is a dict understood by ``sources``'''
+    out = []
+    legacy = spec['style'] == 'legacy'
+    for i, a in enumerate(spec['algs']):
+        out += [{'kind': k, 'alg': i} for k in
+                ('dotted-alg', 'no-svs', 'no-name', 'no-svs-method')]
+        if legacy:
+            out.append({'kind': 'alg-base', 'alg': i})
+        for k in _BAD_MOMENT:
+            out.append({'kind': k, 'alg': i})
+        for j, sv in enumerate(a['svs']):
+            out += [{'kind': k, 'alg': i, 'sv': j}
+                    for k in ('dotted-sv', 'empty-sv', 'sv-base')]
+            for k, _v in enumerate(sv['vals']):
+                out += [{'kind': kk, 'alg': i, 'sv': j, 'val': k}
+                        for kk in ('dotted-val', 'unpicklable', 'value-base')]
+        for which, refs in (('_deps', a['inputs']), ('_fbs', a['feedback'])):
+            for n, _r in enumerate(refs):
+                for k in _BAD_REF:
+                    for pos in ('after', 'before', 'replace'):
+                        out.append({'kind': k, 'alg': i, 'which': which,
+                                    'ref': n, 'pos': pos})
+    if legacy:
+        for pi, _pk in enumerate(spec['pkgs']):
+            for kind in sorted({a['kind'] for a in spec['algs']
+                                if a['pkg'] == pi}):
+                out += [{'kind': k, 'pkg': pi, 'fkind': kind} for k in
+                        ('factory-arity', 'factory-default',
+                         'factory-annotation', 'bot-base')]
+    return out
 
 
 _SEQ = [0]
@@ -489,8 +676,8 @@ class Loaded:
         self.ref = RefGraph(spec)
 
 
-def write(spec, root, base):
-    for rel, src in sources(spec, base).items():
+def write(spec, root, base, viol=None):
+    for rel, src in sources(spec, base, viol).items():
         fn = os.path.join(root, rel)
         os.makedirs(os.path.dirname(fn), exist_ok=True)
         with open(fn, 'wt', encoding='utf-8') as f:
@@ -511,7 +698,7 @@ def prune(spec):
 
 
 @contextlib.contextmanager
-def loaded(spec, scan=True):
+def loaded(spec, scan=True, viol=None):
     '''write the engine, point dawgie.context at it, scan it; clean up after'''
     import dawgie.context
     import dawgie.pl.scan
@@ -521,7 +708,7 @@ def loaded(spec, scan=True):
     root = world.fresh_dir('ae')
     # packages without any algorithm are not written at all
     keep = dict(spec)
-    write(keep, root, base)
+    write(keep, root, base, viol)
     for pi, pk in enumerate(spec['pkgs']):
         if not any(a['pkg'] == pi for a in spec['algs']):
             world.rm(os.path.join(root, base, pk))
